@@ -23,7 +23,11 @@ def handle (j : Json) : Except String Json := do
   let step := affine C d
   let small := if rel then smallRel tol else smallAbs tol
   let integ := fun (_ : Unit) => ssRun copies step small maxSteps y0
-  let sim := simulateToSteadyState Gen.stepSize (Sim.fresh : Sim (List Rat)) integ
+  -- `prior` = number of rows the simulator already holds from earlier successful calls
+  let prior ← jNat (fieldD j "prior" (.num 0))
+  let sim0 : Sim (List Rat) :=
+    if prior == 0 then Sim.fresh else ⟨[], some (List.replicate prior (0, y0))⟩
+  let sim := simulateToSteadyState Gen.stepSize sim0 integ
   let res := getResult sim
   let row := workerRow res
   -- squared consecutive differences over tol², for the harness's near-threshold filter
